@@ -354,6 +354,22 @@ def trip_payloads(trip):
     )
 
 
+def whitelist_prefixes(whitelist):
+    """namespace prefixes of the whitelist tree: every proper prefix of every dotted entry, scalar and list form, and
+    near misses around the dots -- none of them is a whitelist entry"""
+    out = []
+    for w in whitelist:
+        parts = w.split(".")
+        for k in range(1, len(parts)):
+            out.append(".".join(parts[:k]))
+    out = dedup(out)
+    extra = ["net.ipv4.Address.x", "net.", ".net", "net..ipaddress", "net.ipv4.", "net.ipv4..Address", "net.ip", "net.ipv4.Address.",
+             ".", "..", "net.ipv4.address", "net.tcp.port"]
+    cands = out + extra
+    cands = cands + [c + "[]" for c in cands] + [c + "[][]" for c in out]
+    return [c for c in dedup(cands) if strip_list(c) not in whitelist]
+
+
 def gen_valid_ident(rnd, maxlen=8):
     n = rnd.randint(1, maxlen)
     s = rnd.choice("abcxyzABZ")
@@ -448,6 +464,11 @@ class Gen:
             yield "frame", "t/" + self.fresh(), [(w + "[][]", "f")], "whitelist-list-list"
             yield "ctor", "t/" + self.fresh(), [(w.upper() if w.upper() != w else w.lower(), "f")], "whitelist-case"
             yield "ctor", "t/" + self.fresh(), [(w[:-1], "f")], "whitelist-prefix"
+        # 5b. namespace prefixes of the whitelist tree (after every whitelisted module has been imported above)
+        for pfx in whitelist_prefixes(self.impl.whitelist):
+            for route in ROUTES:
+                yield route, "t/" + self.fresh(), [(pfx, "f")], "whitelist-prefix-namespace"
+                yield route, "t/" + self.fresh(), [("string", "a"), (pfx, "f"), ("varint", "class")], "whitelist-prefix-namespace-kw"
         # 6. duplicates, empty, long
         for route in ROUTES:
             yield route, "t/" + self.fresh(), [("string", "a"), ("varint", "a")], "duplicate-field"
@@ -714,6 +735,12 @@ def fieldtype_cases(ctx, impl, trip):
     """fieldtype(p) on hostile paths: what it resolves (importlib spy) versus the model"""
     ft = getattr(impl.base.fieldtype, "__wrapped__", impl.base.fieldtype)
     paths = list(trip_payloads(trip)["field_type"])
+    for w in impl.whitelist:            # make sure every namespace module of the whitelist is loaded first
+        try:
+            ft(w)
+        except Exception:  # noqa: BLE001
+            pass
+    paths += whitelist_prefixes(impl.whitelist)
     for w in impl.whitelist:
         paths += [w, w + "[]", w + "[][]", w + " ", w + "\n", "." + w, w + ".", w.replace(".", "..")]
     for sym in SYMBOLS:
